@@ -83,9 +83,9 @@ FamDef(f) ==
           pts1 |-> <<R(-1, 2), R(1, 2), R(3, 2), R(5, 2)>>, pts2 |-> <<R(3, 4), R(2, 1)>>]
     [] f = "special2" ->
          [un |-> {}, bin |-> {"Mul"},
-          par |-> {<<"Mlgamma", 1, 1>>, <<"Mlgamma", 2, 1>>, <<"Mlgamma", 3, 1>>,
-                   <<"GammaP", 5, 2>>, <<"GammaP", 1, 1>>, <<"GammaP", 9, 8>>,
-                   <<"BesselI", 0, 1>>, <<"BesselI", 1, 1>>, <<"BesselI", 1, 2>>, <<"BesselI", 5, 2>>,
+          par |-> {<<"Mlgamma", 1, 1>>, <<"Mlgamma", 3, 1>>,
+                   <<"GammaP", 5, 2>>, <<"GammaP", 1, 1>>,
+                   <<"BesselI", 0, 1>>, <<"BesselI", 1, 2>>, <<"BesselI", 5, 2>>,
                    <<"LogBesselI", 0, 1>>, <<"LogBesselI", 2, 1>>, <<"LogBesselI", 1, 2>>},
           red |-> {}, un1 |-> {}, bin1 |-> {}, cap |-> 2,
           consts |-> << <<"plain", QI(2)>>, <<"magic0", QF(3, 2)>> >>,
@@ -109,6 +109,32 @@ FamDef(f) ==
           red |-> {}, un1 |-> {"Exp"}, bin1 |-> {"Mul", "Div"}, cap |-> 2,
           consts |-> << <<"const", QF(3, 2)>>, <<"magic0", QF(1, 2)>> >>,
           pts1 |-> <<R(1, 2), R(5, 4)>>, pts2 |-> <<R(3, 4), R(3, 2)>>]
+
+    (* small families for the programs of three calls *)
+    [] f = "d3trig" ->
+         [un |-> {"Sin", "Exp"}, bin |-> {"Mul"}, par |-> {}, red |-> {}, un1 |-> {}, bin1 |-> {}, cap |-> 3,
+          consts |-> << <<"const", QF(3, 2)>>, <<"magic0", QF(-1, 2)>> >>,
+          pts1 |-> <<R(-3, 4), R(1, 2)>>, pts2 |-> <<R(1, 4), R(-5, 4)>>]
+    [] f = "d3log" ->
+         [un |-> {"Log", "Sqrt"}, bin |-> {"Div"}, par |-> {}, red |-> {}, un1 |-> {}, bin1 |-> {}, cap |-> 3,
+          consts |-> << <<"plain", QF(3, 2)>>, <<"magic0", QI(2)>> >>,
+          pts1 |-> <<R(1, 2), R(9, 4)>>, pts2 |-> <<R(3, 4), R(3, 1)>>]
+    [] f = "d3hyp" ->
+         [un |-> {"Tanh", "Lgamma"}, bin |-> {"Add"}, par |-> {}, red |-> {}, un1 |-> {}, bin1 |-> {}, cap |-> 3,
+          consts |-> << <<"const", QF(1, 2)>>, <<"magic0", QF(5, 4)>> >>,
+          pts1 |-> <<R(1, 2), R(7, 4)>>, pts2 |-> <<R(3, 4), R(2, 1)>>]
+    [] f = "d3branch" ->
+         [un |-> {"Abs", "Log1pExp"}, bin |-> {"LogAdd"}, par |-> {}, red |-> {}, un1 |-> {}, bin1 |-> {}, cap |-> 3,
+          consts |-> << <<"const", QI(-19)>>, <<"magic0", NInf>> >>,
+          pts1 |-> <<R(-3, 2), R(0, 1), R(37, 2)>>, pts2 |-> <<R(1, 2), R(-20, 1)>>]
+    [] f = "d3erf" ->
+         [un |-> {"Erf", "Gamma"}, bin |-> {"Sub"}, par |-> {}, red |-> {}, un1 |-> {}, bin1 |-> {}, cap |-> 3,
+          consts |-> << <<"plain", QF(1, 2)>>, <<"magic0", QF(3, 2)>> >>,
+          pts1 |-> <<R(1, 2), R(5, 4)>>, pts2 |-> <<R(3, 4), R(9, 4)>>]
+    [] f = "d3pow" ->
+         [un |-> {"Neg", "Sigmoid"}, bin |-> {"Pow"}, par |-> {}, red |-> {}, un1 |-> {}, bin1 |-> {}, cap |-> 3,
+          consts |-> << <<"const", QI(2)>>, <<"magic0", QF(1, 2)>> >>,
+          pts1 |-> <<R(0, 1), R(3, 2)>>, pts2 |-> <<R(1, 2), R(2, 1)>>]
 
 Alphas == {Rat(2, 1)}        \* SmoothMax / LogSmoothMax sharpness
 
